@@ -1343,6 +1343,13 @@ mod expression_parser {
                   )
                 })
                 .collect_vec();
+              if let Some(node) = tuple_elements.get(MAX_STRUCT_SIZE) {
+                parser.error_set.report_invalid_syntax_error(
+                  node.loc(),
+                  format!("Maximum allowed tuple size is {MAX_STRUCT_SIZE}"),
+                );
+              }
+              tuple_elements.truncate(MAX_STRUCT_SIZE);
               if tuple_elements.len() == 1 {
                 // `(x,)`: a single element with a trailing comma is not a tuple.
                 return tuple_elements.pop().unwrap();
